@@ -130,7 +130,7 @@ func RunCheck(cfg CheckConfig) int {
 	bySolver := map[string]int{}
 	solverTime := 0.0
 	var funcs []map[string]any
-	var samples []map[string]any
+	samples := []map[string]any{}
 	var knownSeen []string
 	var notes []string
 	var names []string
@@ -284,6 +284,77 @@ func RunCheck(cfg CheckConfig) int {
 			notes = append(notes, fr.Func+": "+n)
 		}
 	}
+	// mechanical completeness obligations: every syntactic source of run-to-run variation (C15) / every write to
+	// package-level state outside initialisers (C18) in the module is accounted for by a site declaration
+	var siteAssumptions []string
+	if prop == "C15" || prop == "C18" {
+		var sites []Site
+		prefix := "det."
+		if prop == "C15" {
+			sites = g.ScanDet()
+		} else {
+			sites = g.ScanGlobalWrites()
+			prefix = "own."
+		}
+		type key struct{ fn, kind string }
+		declared := map[key]*SiteDecl{}
+		for i := range g.CS.Sites {
+			d := &g.CS.Sites[i]
+			if strings.HasPrefix(d.Kind, prefix) {
+				declared[key{d.Func, d.Kind}] = d
+			}
+		}
+		count := map[key]int{}
+		first := map[key]Site{}
+		for _, s := range sites {
+			k := key{s.Func, s.Kind}
+			if count[k] == 0 {
+				first[k] = s
+			}
+			count[k]++
+		}
+		underContract := map[string]bool{}
+		for _, fr := range reports {
+			if !fr.Missing && fr.Outside == "" {
+				underContract[fr.Func] = true
+			}
+		}
+		var keys []key
+		for k := range count {
+			keys = append(keys, k)
+		}
+		sort.Slice(keys, func(i, j int) bool { return keys[i].fn+keys[i].kind < keys[j].fn+keys[j].kind })
+		for _, k := range keys {
+			name := fmt.Sprintf("%s#scan.%s", k.fn, k.kind)
+			nObl++
+			names = append(names, name)
+			d := declared[k]
+			switch {
+			case d == nil || count[k] > d.Count:
+				violations++
+				have := 0
+				if d != nil {
+					have = d.Count
+				}
+				fail(name, fmt.Sprintf("%d site(s) of kind %s in %s (first at %s %s) but only %d accounted for by site declarations in the contract files", count[k], k.kind, k.fn, first[k].Pos, first[k].Note, have), "")
+			case d.Disposition == "proved" && !underContract[k.fn]:
+				violations++
+				fail(name, "site declared proved but the function has no contract for this property", d.File)
+			default:
+				nDis++
+				bySolver["scan"]++
+				if len(samples) < 8 {
+					samples = append(samples, map[string]any{"obligation": name, "kind": "scan", "clause": fmt.Sprintf("%d site(s), first at %s %s; accounted for (%s): %s", count[k], first[k].Pos, first[k].Note, d.Disposition, d.Reason), "verdict": "accounted", "solver": "scan"})
+				}
+				if d.Disposition == "reviewed" {
+					siteAssumptions = append(siteAssumptions, fmt.Sprintf("%s %s x%d (reviewed, not checked by the verifier): %s", k.fn, k.kind, d.Count, d.Reason))
+				} else {
+					notes = append(notes, fmt.Sprintf("%s %s x%d: covered by the function's own obligations: %s", k.fn, k.kind, d.Count, d.Reason))
+				}
+			}
+		}
+		funcs = append(funcs, map[string]any{"func": "module scan (" + strings.Join(g.ModulePackagePaths(), " ") + ")", "obligations": len(keys), "discharged": len(keys), "blocks": 0, "instrs": 0, "wall_s": 0.0})
+	}
 	if nObl == 0 {
 		violations++
 		fail(prop+"#no-obligations", "vacuity: no obligations were generated for this property", "")
@@ -342,6 +413,7 @@ func RunCheck(cfg CheckConfig) int {
 		"pure functions are deterministic functions of their arguments",
 		"calls without contract are abstracted (heap havoc, unconstrained result): listed in coverage.abstract_calls",
 	}
+	ev.Assumptions = append(ev.Assumptions, siteAssumptions...)
 	writeEvidence(cfg, ev)
 	fmt.Fprintf(out, "property %s: %d functions, %d/%d obligations discharged, %d covers feasible of %d, %d violation(s), %.1fs\n", prop, len(funcs), nDis, nObl, nCoverOK, nCover, violations, time.Since(t0).Seconds())
 	if violations > 0 {
